@@ -50,6 +50,9 @@ def corpus():
         c[tag] = [D.ns('gt', [D.cls('Box', [D.ctor('Box', [arg(T('T'), 'v')]), D.method(single(T(rt)), mname, [], 1)], tpl=[D.tparam('T')]),
                               D.func(single(T('T')), 'unbox', [arg(T('T', 1, '&'), 'b'), arg(T(rt), mname)], tpl=[D.tparam('T')]),
                               D.typedef(T('gt::Box', t=[I]), 'BoxInt'), D.typedef(T('gt::unbox', t=[T('double')]), 'unboxDouble')])]
+    # tab characters inside default values: tabA without any double quote in the file, tabB with one
+    c['tabA'] = [D.func(single(T('void')), 'tabA', [arg(T('char'), 'c', "'\t'"), arg(I, 'n', '1\t+ 2')])]
+    c['tabB'] = [D.func(single(T('void')), 'tabB', [arg(T('string'), 's', '"x\ty"')])]
     c['docs'] = [D.ns('gt', [D.cls('Foo', [D.method(single(I), 'same', [arg(I, 'v')]), D.method(single(I), 'same', [arg(T('double'), 'v')]),
                                            D.method(single(I), 'plain', [arg(I, 'a')])])])]
     return c
@@ -96,6 +99,19 @@ for n in names:
         res[n + '/pybind'] = hashlib.sha256(open(os.path.join(out, n + '.cpp'), 'rb').read()).hexdigest()
     except Exception as e:
         res[n + '/pybind'] = 'EXC %s' % type(e).__name__
+    try:
+        sub = os.path.join(out, 'sub')
+        os.makedirs(sub, exist_ok=True)
+        old = os.getcwd()
+        os.chdir(sub)
+        try:
+            PybindWrapper(module_name=n, top_module_namespaces=[''], use_boost_serialization=True, ignore_classes=[''],
+                          module_template=tpl).wrap_submodule(src)
+        finally:
+            os.chdir(old)
+        res[n + '/submodule'] = hashlib.sha256(open(os.path.join(sub, n + '.cpp'), 'rb').read()).hexdigest()
+    except Exception as e:
+        res[n + '/submodule'] = 'EXC %s' % type(e).__name__
     try:
         ml = os.path.join(out, 'toolbox')
         MatlabWrapper(module_name=n, ignore_classes=[''], use_boost_serialization=True).wrap([src], path=ml)
@@ -560,7 +576,7 @@ def run(ctx):
         kinds = ('same', 'fresh', 'matlab')
         for L in range(1, depth + 1):
             for ops in itertools.product([(k, n) for k in kinds for n in names], repeat=L):
-                if L == depth and not ctx.thorough and ops[-1][1] not in ('serial', 'docs', 'class', 'templates', 'tdB'):
+                if L == depth and not ctx.thorough and ops[-1][1] not in ('serial', 'docs', 'class', 'templates', 'tdB', 'tabA'):
                     continue
                 hcases.append({'ops': [list(o) for o in ops]})
         fresh = {}
